@@ -352,7 +352,28 @@ func checkC11(c *Ctx) {
 	// is walked (E7, typed integer arithmetic) for every width and every count
 	// from 0 to 72 positions beyond the largest width (relative to Sub, kept as a call)
 	c.Rule("C11.mask", "bitMask(bits, w), walked for every width 1..MaxWidth and every count 0..8*MaxWidth+72, returns either a constant of width w that equals 2^min(bits,8w)-1 (which needs min(bits,8w) <= 64), or Sub(Lsh(1, bits), 1) at width w (Sub decided by C11.ring; a shift by 8w or more is zero by C10, the difference all ones); MaskBits is BitAnd (C11.bitwise) of its operand and that mask at the same width")
-	if bm := c.Prog.Func(tpkg + ".bitMask"); bm != nil && bm.Blocks != nil && len(bm.Params) == 2 {
+	// the mask function is identified from MaskBits (the call that receives its
+	// count and its width), not by name
+	var bm *ssa.Function
+	bitsIdx, wIdx := 0, 1
+	if mb := c.Prog.Func(tpkg + ".MaskBits"); mb != nil && mb.Blocks != nil && len(mb.Params) == 3 {
+		for _, b := range mb.Blocks {
+			for _, in := range b.Instrs {
+				mc, ok := in.(*ssa.Call)
+				if !ok || mc.Call.StaticCallee() == nil || len(mc.Call.Args) != 2 || PkgPathOf(mc.Call.StaticCallee()) != tpkg {
+					continue
+				}
+				a0, a1 := Unwrap(mc.Call.Args[0]), Unwrap(mc.Call.Args[1])
+				switch {
+				case a0 == ssa.Value(mb.Params[1]) && a1 == ssa.Value(mb.Params[2]):
+					bm, bitsIdx, wIdx = Origin(mc.Call.StaticCallee()), 0, 1
+				case a1 == ssa.Value(mb.Params[1]) && a0 == ssa.Value(mb.Params[2]):
+					bm, bitsIdx, wIdx = Origin(mc.Call.StaticCallee()), 1, 0
+				}
+			}
+		}
+	}
+	if bm != nil && bm.Blocks != nil && len(bm.Params) == 2 {
 		n++
 		maxW := int64(255)
 		if v, ok := absint.ConstByName(ep, "MaxWidth"); ok {
@@ -386,9 +407,9 @@ func checkC11(c *Ctx) {
 					},
 					Int: func(v ssa.Value) (int64, bool) {
 						switch v {
-						case ssa.Value(bm.Params[0]):
+						case ssa.Value(bm.Params[bitsIdx]):
 							return bits, true
-						case ssa.Value(bm.Params[1]):
+						case ssa.Value(bm.Params[wIdx]):
 							return w, true
 						}
 						return 0, false
@@ -450,7 +471,7 @@ func checkC11(c *Ctx) {
 				}
 			}
 		}
-		c.Oblige("C11.mask", "pkg/expr/exprtools.bitMask", c.Prog.FuncPos(bm), bad == "", bad)
+		c.Oblige("C11.mask", "pkg/expr/exprtools.bitMask", c.Prog.FuncPos(bm), bad == "", bad) // keyed by role: the mask function of MaskBits
 		c.Saw("mask_walks", fmt.Sprintf("%d", walked))
 		// MaskBits: BitAnd(e, bitMask(cnt, w), w)
 		if mb := c.Prog.Func(tpkg + ".MaskBits"); mb != nil && mb.Blocks != nil && len(mb.Params) == 3 {
@@ -463,7 +484,7 @@ func checkC11(c *Ctx) {
 						isMask := func(v ssa.Value) bool {
 							mc, ok := Unwrap(v).(*ssa.Call)
 							return ok && mc.Call.StaticCallee() != nil && Origin(mc.Call.StaticCallee()) == Origin(bm) && len(mc.Call.Args) == 2 &&
-								Unwrap(mc.Call.Args[0]) == ssa.Value(mb.Params[1]) && Unwrap(mc.Call.Args[1]) == ssa.Value(mb.Params[2])
+								Unwrap(mc.Call.Args[bitsIdx]) == ssa.Value(mb.Params[1]) && Unwrap(mc.Call.Args[wIdx]) == ssa.Value(mb.Params[2])
 						}
 						isE := func(v ssa.Value) bool { return Unwrap(v) == ssa.Value(mb.Params[0]) }
 						a0, a1 := ac.Call.Args[0], ac.Call.Args[1]
@@ -478,7 +499,7 @@ func checkC11(c *Ctx) {
 			c.Undecide("C11.mask: %s.MaskBits not found", tpkg)
 		}
 	} else {
-		c.Undecide("C11.mask: %s.bitMask not found", tpkg)
+		c.Undecide("C11.mask: no function of %s receives the count and the width of MaskBits", tpkg)
 	}
 	c.RequireCount("C11 gadgets decided", n, 23)
 }
